@@ -680,6 +680,9 @@ func loadProvRef() (*provRef, error) {
 }
 
 func runProvDrift(c *Ctx, pkgs []string) {
+	if !referenceConfig(c) {
+		return
+	}
 	ref, err := loadProvRef()
 	if err != nil {
 		c.Broken("reference table of argument provenance cannot be read: %v", err)
